@@ -152,7 +152,7 @@ Theorem C02_url_exact : forall c rules s dec, query_unescape s = inl dec ->
 Proof. exact url_valid_exact. Qed.
 Print Assumptions C02_url_exact.
 
-(* "one rule instance writes at most one clause", FROM THE SOURCE TEXT of 24 rule functions (the size, string and content
+(* "one rule instance writes at most one clause", FROM THE SOURCE TEXT of 29 rule functions (the size, string and content
    rules; see C15_message_discipline_from_source): for every rule text, names and value, the function returns and what it
    appended to the error buffer is nothing or the result of ONE call of GetJoinValidErrStr / GetJoinFieldErr on the
    field's own object and field name — one clause, naming its field. *)
